@@ -195,6 +195,9 @@ var hfPaths = []string{"/", "/a", "/my/very/deep/page", "/a/b", "/index.html", "
 
 func autotagRef(n int, path string) string {
 	// first n path elements (docs: /my/very/deep/page?id=23 -> /my/very for uri-elements: 2)
+	if path == "" {
+		return "" // no path, no path elements: there is no auto-tag
+	}
 	els := strings.Split(strings.TrimPrefix(path, "/"), "/")
 	if len(els) > n {
 		els = els[:n]
@@ -234,8 +237,14 @@ func genHTTPFaultSpec(r *R, faults bool) httpFaultSpec {
 		if w.Draw(3) != 0 {
 			tag = fmt.Sprintf("t%d", i) // unique tags attribute samples to entries; untagged entries are attributed by elimination
 		}
+		path := hfPaths[w.Draw(len(hfPaths))]
+		if sp.Format == "json" && w.Draw(8) == 0 {
+			// an http/json entry whose uri has no path at all ("?n=3"): it is sent as "/?n=3"; with nothing to derive an
+			// auto-tag from, the untagged entry is reported as __EMPTY__
+			path, tag = "", ""
+		}
 		sp.Tags = append(sp.Tags, tag)
-		sp.Paths = append(sp.Paths, hfPaths[w.Draw(len(hfPaths))])
+		sp.Paths = append(sp.Paths, path)
 		m := "GET"
 		if sp.Format == "json" {
 			m = []string{"GET", "POST", "PUT", "DELETE"}[w.Draw(4)]
